@@ -406,6 +406,8 @@ def explore(fn, budget_s: float, per_path_timeout: float = 30.0, seed: int = 0,
 def run_concrete(fn, args: dict):
     """Run a harness on concrete arguments.  Returns (status, payload)."""
     try:
+        # rationals come from real-valued (float) symbolic parameters: concrete replays get floats
+        args = {k: (float(v) if isinstance(v, Fraction) else v) for k, v in args.items()}
         obs = fn(**args)
         return "ok", jsonable(obs)
     except PreconditionNotMet:
